@@ -6,7 +6,7 @@
 (* exporter for a given value is obtained by instantiating Export with      *)
 (* that value substituted for the variable.                                *)
 (***************************************************************************)
-EXTENDS Queries
+EXTENDS ExcerptImpl
 
 \* the exporter / queries applied to another document value
 On(st, ms) == INSTANCE Queries WITH stages <- st, mstarts <- ms
